@@ -65,11 +65,11 @@ def mkPage (slots : List (Bytes × Tuple)) (lps : List LP) (freeLen : Nat) (vers
     free := zeros freeLen, slots, tail := zeros tailLen }
 
 def genPage (size : Nat) : Gen Page := do
-  let nSlots ← match ← Gen.below 6 with
+  let nSlots ← match ← Gen.below 12 with
     | 0 => pure 0
-    | 1 => pure 1
-    | 2 => Gen.range 2 (4 + size)
-    | 3 => Gen.range 1 (20 + 4 * size)
+    | 1 | 2 => pure 1
+    | 3 | 4 => Gen.range 2 (4 + size)
+    | 5 | 6 => Gen.range 1 (20 + 4 * size)
     | _ => Gen.range 1 (6 + size)
   let nOther ← match ← Gen.below 3 with
     | 0 => pure 0
@@ -120,9 +120,9 @@ def genBlock (size : Nat) : Gen Block := do
   return .page (← genPage size)
 
 def genHeap (size : Nat) : Gen (List Block × Bytes) := do
-  let n ← match ← Gen.below 5 with
+  let n ← match ← Gen.below 12 with
     | 0 => pure 0
-    | 1 => pure 1
+    | 1 | 2 => pure 1
     | _ => Gen.range 1 (2 + size)
   let bs ← Gen.listOf n (genBlock size)
   let tl ← match ← Gen.below 4 with
